@@ -92,3 +92,7 @@ def batt_life(run, tag):
     except ImportError:
         run.notes.append("batt_life slice contract not built yet"); return
     _discharge(run, [o for o in (BL.obligations(run, Source()) or []) if o.get("kind") == "canary" or tag in o.get("tags", [])], "batt_life")
+
+
+def graph_helpers(run, tag):
+    _discharge(run, [o for o in (SC.graph_helpers(run, Source()) or []) if o.get("kind") == "canary" or tag in o.get("tags", [])], "graph helper wrappers")
